@@ -1,7 +1,7 @@
 """C05 one-step cases: generator, runners (implementation harness impl_haiss, extracted model
 model_haiss), independent reference for the wake potential, comparators and the force-law
 oracle.  Single bunch (multi-bunch layout is C08)."""
-import cmath, math
+import cmath, math, os
 from fractions import Fraction
 from vp_common import *
 import vp_build, vp_coq
@@ -236,3 +236,82 @@ def row_moments(grid, n, x):
 
 def parse_grid(toks):
     return [parse_c(t) for t in toks]
+
+
+# ------------------------------------------------------------------------------------ program level
+# One short run of the real binary with a constant impedance read from a file: every record's
+# /WakePotential/data must be scaling * c2r(Z * r2c(padded /BunchProfile/data)) with the scaling
+# factor computed from the command-line parameters the way main() derives them (fs, bunch length,
+# time step).  This ties main()'s wiring of the ElectricField constructor arguments to C05.2.
+
+PHYS = dict(c=2.99792458e8, epsilon0=8.854187817e-12, e=1.602e-19, me=510998.9)
+
+
+def main_derived(o):
+    """the quantities main() derives from the options (defaults of ProgramOptions)"""
+    E0, sE, f_rev, H, V_RF, alpha0 = o["E0"], o["sE"], o["f_rev"], o["H"], o["V_RF"], o["alpha0"]
+    R_bend = PHYS["c"] / (2 * math.pi * f_rev)
+    gamma = E0 / PHYS["me"]
+    V0 = PHYS["e"] * gamma ** 4 / (3 * PHYS["epsilon0"] * R_bend)
+    V_eff = math.sqrt(V_RF * V_RF - V0 * V0)
+    fs = f_rev * math.sqrt(alpha0 * H * V_eff / (2 * math.pi * E0))
+    dE = sE * E0
+    bl = PHYS["c"] * dE / H / f_rev ** 2 / V_eff * fs
+    dt = 1.0 / (fs * o["steps"])
+    return dict(fs=fs, bl=bl, dt=dt, dE=dE, V_eff=V_eff)
+
+
+def program_wake_check(ctx, tg, workdir, n=32, ohm=500.0, current=2e-3, steps=100, pqsize=12.0):
+    import subprocess
+    o = dict(E0=1.3e9, sE=4.7e-4, f_rev=9e6, H=50.0, V_RF=1e6, alpha0=4e-3, steps=steps)
+    d = main_derived(o)
+    N = 1
+    while N < int(math.ceil(n * 8.0)):
+        N *= 2
+    zf = os.path.join(workdir, "zconst.txt")
+    with open(zf, "w") as f:
+        for i in range(2 * N):
+            f.write("%d %.9g 0\n" % (i, ohm))
+    out = os.path.join(workdir, "pw.h5")
+    for p in (out, out + ".cfg"):
+        if os.path.exists(p):
+            os.remove(p)
+    cmd = ["timeout", "-k", "5", "120", tg["inovesa"], "--gui", "0", "-s", str(n), "-N", str(steps), "-T", "0.5",
+           "-I", repr(current), "-G", "0", "-Z", zf, "-o", out, "-n", str(steps // 4), "-P", repr(pqsize),
+           "-E", repr(o["E0"]), "-e", repr(o["sE"]), "-F", repr(o["f_rev"]), "-H", repr(o["H"]), "-V", repr(o["V_RF"]),
+           "--alpha0", repr(o["alpha0"])]
+    r = subprocess.run(cmd, capture_output=True, text=True, env=vp_build.xdg_env(), cwd=workdir)
+    if r.returncode != 0 or not os.path.exists(out):
+        raise RuntimeError("inovesa (program-level wake check) failed rc=%d: %s" % (r.returncode, (r.stdout + r.stderr)[-500:]))
+    h = subprocess.run(["timeout", "60", tg["h5cat"], out, "--values", "--only", "/BunchProfile/data", "--only",
+                        "/WakePotential/data"], capture_output=True, text=True)
+    data = {}
+    for ln in h.stdout.splitlines():
+        if ln.startswith("data "):
+            t = ln.split()
+            data[t[1]] = [float.fromhex(x) if "x" in x else float(x) for x in t[2:]]
+    bp, wp = data["/BunchProfile/data"], data["/WakePotential/data"]
+    nrec = len(bp) // n
+    delta = pqsize / (n - 1)
+    scaling = current * d["dt"] * PHYS["c"] / d["bl"] / (delta * o["sE"] * o["E0"]) / N
+    worst = 0.0
+    for k in range(nrec):
+        rho, W = bp[k * n:(k + 1) * n], wp[k * n:(k + 1) * n]
+        L = [ohm * sum(v * cmath.exp(-2j * math.pi * u * kk / N) for u, v in enumerate(rho)) for kk in range(N // 2)]
+        cond = scaling * (abs(L[0]) + 2 * sum(abs(v) for v in L[1:]))
+        tol = 1e-5 * cond       # float parameters (delta, angle, scaling) and the float FFT pair: ~64 ulp
+        for j in range(n):
+            y = L[0].real + 2 * sum((L[kk] * cmath.exp(2j * math.pi * j * kk / N)).real for kk in range(1, N // 2))
+            ref = scaling * y
+            worst = max(worst, abs(W[j] - ref) / cond)
+            if abs(W[j] - ref) > tol:
+                ctx.violation("impl-oracle", "recorded /WakePotential is not scaling*c2r(Z*r2c(recorded profile)) with the scaling "
+                              "Ib*dt*c/(sigma_z*dE_cell)/N derived from the command line as main() does",
+                              case=dict(kind="program-wake", cmd=cmd[4:], record=k, cell=j), observed=W[j],
+                              expected=dict(ref=ref, tol=tol), sig=dict(kind="program-wake", clause="wake-reference"))
+                return dict(records=nrec, worst_rel=worst, ok=False)
+    ctx.case_done(("program-wake", n, steps), max(abs(v) for v in wp) > 0)
+    for p in (out, out + ".cfg", zf):
+        if os.path.exists(p):
+            os.remove(p)
+    return dict(records=nrec, worst_rel=worst, ok=True, peak_W_cells=max(abs(v) for v in wp))
